@@ -21,7 +21,8 @@ RULE = (
 REQUIRED = ["pairs_checked", "mappings_validated", "maximum_checked", "direction_inverse_checked",
             "first_graph_larger", "optimum_smaller_than_pattern", "disconnected_pairs", "mtg_checked",
             "noninteger_order_pairs", "disconnected_optimum_beats_edge_bound", "mcs_mol_checked", "reused_matcher_checked",
-            "option_pairs/prune_wc", "wildcard_pruning_flips_size_order", "pairs_with_omitted_default_attributes"]
+            "option_pairs/prune_wc", "wildcard_pruning_flips_size_order", "pairs_with_omitted_default_attributes",
+            "pairs_with_non_numeric_bond_labels"]
 ASSUMPTIONS = [
     "common subgraph = common induced subgraph (bond present iff present, equal order), as the statement says",
     "edge orders compared numerically (float equality), node labels by the configured attributes",
@@ -313,6 +314,18 @@ def run(ctx):
         attrs = ("element",) if t % 3 else ("element", "charge")
         check_pair(ctx, A, Bg, "random pairs (planted parts, copies, disconnected, aromatic orders)",
                    ("rnd", WG.describe(A), WG.describe(Bg), attrs), node_attrs=attrs)
+        if t % 4 == 1:
+            # bond labels that are not numbers (ITS-style order pairs, string bond types): equality is all that is needed
+            style = rng.choice(["pair", "string"])
+            def relabel(g):
+                h = g.copy()
+                for _, _, d in h.edges(data=True):
+                    o = d.get("order")
+                    d["order"] = (float(o), 0.0) if style == "pair" else {1: "single", 1.5: "aromatic", 2: "double", 2.5: "x", 3: "triple"}.get(o, str(o))
+                return h
+            ctx.count("pairs_with_non_numeric_bond_labels")
+            check_pair(ctx, relabel(A), relabel(Bg), "random pairs with non-numeric bond labels (order pairs / strings)",
+                       ("nonnum", style, repr(WG.describe(A)), repr(WG.describe(Bg)), attrs), node_attrs=attrs)
         if t % 2 == 0:
             # wildcard atoms (more of them in the smaller graph, so that pruning can flip which graph is the pattern)
             small_first = A.number_of_nodes() <= Bg.number_of_nodes()
